@@ -215,7 +215,7 @@ def miri_run(ctx, key, sim_args, many_seeds=None, timeout=3600):
 
 def build_many(ctx, keys):
     keys = list(dict.fromkeys(keys))
-    with ThreadPoolExecutor(max_workers=min(len(keys), 6)) as ex:
+    with ThreadPoolExecutor(max_workers=min(len(keys), 8)) as ex:
         return dict(zip(keys, ex.map(lambda k: build(ctx, k), keys)))
 
 
@@ -414,15 +414,60 @@ def sim_batch_procs(ctx, vd, config, binary, scenario, count, procs=NCPU, extra=
 # ---------------------------------------------------------------------------------------------
 # properties
 # ---------------------------------------------------------------------------------------------
+def strace_eintr(ctx, vd, binary, scratch):
+    """Thorough: the real kernel read path of hash_file with EINTR injected into the N-th read(2) of the file
+    (deterministic: a counted syscall). The result must equal the un-injected one."""
+    if not shutil.which("strace"):
+        vd.extra["strace"] = "strace not available: real-syscall fault injection skipped"
+        return
+    path = os.path.join(scratch, "strace-target.bin")
+    import random
+    rnd = random.Random(vd.seed)
+    open(path, "wb").write(bytes(rnd.getrandbits(8) for _ in range(3 * (1 << 20) + 11)))
+    base = subprocess.run([binary, "hashfile-one", "--path", path], stdout=subprocess.PIPE, text=True).stdout.strip()
+    fired = 0
+    checks = 0
+    nviol = 0
+    for n in range(1, 7):
+        log = os.path.join(scratch, "strace.log")
+        p = subprocess.run(["strace", "-o", log, "-P", path, "-e", "trace=read", "-e", "inject=read:error=EINTR:when=%d" % n,
+                            binary, "hashfile-one", "--path", path], stdout=subprocess.PIPE, stderr=subprocess.PIPE, text=True)
+        inj = open(log).read().count("(INJECTED)") if os.path.exists(log) else 0
+        if p.returncode != 0 and inj == 0 and "ptrace" in p.stderr.lower():
+            vd.extra["strace"] = "ptrace not permitted here: real-syscall fault injection skipped"
+            return
+        fired += inj
+        checks += 1
+        got = p.stdout.strip()
+        if inj and got != base:
+            nviol += 1
+            vd.add_violation("default", "c12strace", {"class": "eintr-on-real-read-changes-result", "index": n, "engine": "strace",
+                                                       "detail": "EINTR injected into real read(2) #%d of a 3 MiB file: hash_file printed `%s`, without injection `%s`" % (n, got, base),
+                                                       "history": {"when": n, "file_bytes": 3 * (1 << 20) + 11, "file_seed": vd.seed},
+                                                       "argv": ["strace", "-P", "<file>", "-e", "inject=read:error=EINTR:when=%d" % n, "sim", "hashfile-one"]})
+    os.remove(path)
+    vd.reports.append(("default", {"scenario": "c12strace", "evaluations": checks, "distinct": checks, "distinct_nontrivial": checks,
+                                   "rule": "strace: one evaluation = hash_file on a real 3 MiB file with EINTR injected into the N-th real read(2), N = 1..6",
+                                   "counters": {"fault.eintr_real_syscall": fired}, "samples": [{"when": [1, 2, 3, 4, 5, 6]}], "violation_count": nviol, "wall_s": 0}))
+    ctx.log("strace: %d runs, %d injected EINTRs fired, %d violations" % (checks, fired, nviol))
+
+
 def check_C12(ctx, tier, seed):
     vd = Verdict(ctx, "C12", tier, seed, "exploration")
     b = build(ctx, "default")
     n = 200_000 if tier == "quick" else 20_000_000
     sim_batch(ctx, vd, "default", b, "c12", n)
-    vd.extra["components_real"] = ["tlsh::hash_stream / hash_stream_for::<T> (all five variants), tlsh::hash_buf_for (oracle side), Generator::update/finalize"]
-    vd.extra["components_stub"] = ["the reader (scripted SimReader: deliveries, EINTR, hard errors, early EOF, scribbling)"]
+    scratch = os.path.join(ctx.build_root, "default", "files")
+    os.makedirs(scratch, exist_ok=True)
+    for i in range(1 if tier == "quick" else 16):
+        code, rep, err = run_sim(ctx, b, ["hashfile", "--dir", scratch, "--seed", seed + i])
+        vd.add("default", rep)
+    if tier != "quick":
+        strace_eintr(ctx, vd, b, scratch)
+    vd.extra["components_real"] = ["tlsh::hash_stream / hash_stream_for::<T> (all five variants), hash_file / hash_file_for on real files (real kernel read path), tlsh::hash_buf_for (oracle side), Generator::update/finalize"]
+    vd.extra["components_stub"] = ["the reader (scripted SimReader: deliveries, EINTR, hard errors, early EOF, scribbling)", "thorough: strace injects EINTR into counted real read(2) calls of hash_file"]
     vd.assumptions = ["the oracle is the crate's own one-shot hash_buf_for on the delivered bytes (as the property states)",
-                      "seeded sampling of reader scripts, not enumeration"]
+                      "seeded sampling of reader scripts, not enumeration", "hash_file's File is a concrete type: only EINTR is injected into its real syscalls (short reads there are up to the kernel)"]
     return vd.finish()
 
 
@@ -465,7 +510,7 @@ MATRIX = {
 }
 for _k, _v in MATRIX.items():
     CONFIGS[_k] = dict(tlsh=_v["tlsh"], sim=[], rustflags=_v.get("rustflags", ""))
-MATRIX_QUICK = ["m_plain", "m_default", "m_unsafe", "m_embedded", "m_static_sse41"]
+MATRIX_QUICK = ["m_plain", "m_default", "m_unsafe", "m_embedded", "m_static_sse41", "m_dec_half", "m_dec_quarter", "m_enc_half", "m_static_sse2"]
 
 
 def transcript_of(ctx, binary, seed, count):
@@ -726,6 +771,10 @@ def check_C17(ctx, tier, seed):
         for sc, n in scen:
             n = n * mult // (8 if cfg.startswith("asan") else 1)
             sim_batch_procs(ctx, vd, cfg, bins[cfg], sc, n, abort_engine="asan" if cfg.startswith("asan") else "native-abort", env=env)
+    # states only multi-GiB inputs reach (bucket counts up to and past 2^31 / 2^32): the C11 jump histories in the
+    # debug-assertion + overflow-check build (hooked: state seam H3)
+    hb = build(ctx, "hooked_dbg")
+    sim_batch(ctx, vd, "hooked_dbg", hb, "c11", 15_000 * mult)
     # Miri: a deterministic interpreter that reports UB; under feature `unsafe` every invariant!() is an
     # unreachable_unchecked, so a false invariant is reported as "entering unreachable code"
     miri_cfgs = ["miri_sse2", "miri_unsafe_sse2"] if quick else ["miri_sse2", "miri_sse41", "miri_avx2", "miri_unsafe_sse2", "miri_unsafe_sse41", "miri_unsafe_avx2"]
@@ -755,6 +804,25 @@ def check_C11(ctx, tier, seed):
     sim_batch(ctx, vd, "hooked_dbg", bins["hooked_dbg"], "c11", n // 4)
     sim_batch(ctx, vd, "hooked", bins["hooked"], "c11small", n)
     sim_batch(ctx, vd, "hooked_dbg", bins["hooked_dbg"], "c11small", n // 4)
+    if tier != "quick":
+        # real multi-GiB streams (works with the guard off, too; with it on, the internal state is compared with the model's jump)
+        import random
+        rnd = random.Random(seed)
+        jobs = []
+        for v in range(5):
+            pats = ["a40e", "".join("%02x" % rnd.getrandbits(8) for _ in range(rnd.choice([1, 2, 3]) if v in (2, 4) else rnd.randint(1, 48)))]
+            for pat in pats:
+                jobs.append(["bigstream", "--variant", v, "--pattern", pat, "--seed", rnd.getrandbits(32)])
+        for v, total in ((1, 4224281216), (0, 4224281217), (4, (1 << 32) + 5), (3, (1 << 32) - 1)):
+            jobs.append(["bigstream", "--variant", v, "--pattern", "00", "--seed", 1, "--single-slice", total])
+        t = time.time()
+        def big(args):
+            code, rep, err = run_sim(ctx, bins["hooked"], args)
+            return rep
+        with ThreadPoolExecutor(max_workers=NCPU - 2) as ex:
+            for rep in ex.map(big, jobs):
+                vd.add("hooked", rep)
+        ctx.log("real streams: %d jobs in %.1fs" % (len(jobs), time.time() - t))
     jumped = sum(r.get("counters", {}).get("sim_bytes_jumped", 0) for _, r in vd.reports)
     fed = sum(r.get("counters", {}).get("sim_bytes_fed", 0) for _, r in vd.reports)
     vd.extra["simulated_stream_bytes"] = {"jumped_by_model_fast_forward": jumped, "fed_through_update": fed}
@@ -834,6 +902,20 @@ def replay(ctx, pid, path):
         p = subprocess.run(doc["argv"], env=cargo_env({"CARGO_TARGET_DIR": os.path.join(ctx.build_root, "nostd_lib", "target")}),
                            stdout=subprocess.PIPE, stderr=subprocess.STDOUT, text=True)
         return report(p.returncode != 0, "build exit %d" % p.returncode)
+    if engine in ("bigstream",):
+        b = build(ctx, cfg)
+        code, rep, err = run_sim(ctx, b, doc["argv"])
+        return report(code == 1, json.dumps((rep or {}).get("violations", [{}])[:1])[:500])
+    if engine in ("hashfile", "strace"):
+        b = build(ctx, "default")
+        scratch = os.path.join(ctx.build_root, "default", "files")
+        os.makedirs(scratch, exist_ok=True)
+        if engine == "hashfile":
+            code, rep, err = run_sim(ctx, b, ["hashfile", "--dir", scratch, "--seed", doc["seed"]])
+            return report(code == 1, json.dumps((rep or {}).get("violations", [{}])[:1])[:500])
+        vd = Verdict(ctx, prop, "quick", int(doc["seed"]), "exploration")
+        strace_eintr(ctx, vd, b, scratch)
+        return report(bool(vd.violations), vd.violations[0][2]["detail"] if vd.violations else "no difference")
     if engine in ("native-abort", "asan"):
         return replay_abort(ctx, doc, path, report)
     b = build(ctx, cfg)
